@@ -11,6 +11,8 @@ func genFamily(c *Config, r *rand.Rand) {
 	switch c.Family {
 	case "drain":
 		genDrain(c, r)
+	case "hostile":
+		genHostile(c, r)
 	default:
 		genPipe(c, r)
 	}
@@ -31,6 +33,12 @@ func addProcs(c *Config, r *rand.Rand) {
 	c.PipeProcs = genProcs(r, "pl", 3, c)
 	for i := range c.Dests {
 		c.Dests[i].Procs = genProcs(r, c.Dests[i].ID, 2, c)
+	}
+	// conditions: some processors only apply to records whose attribute k is "1"
+	for _, p := range allProcs(c) {
+		if r.IntN(4) == 0 {
+			p.Cond = condTemplate(r.IntN(3))
+		}
 	}
 }
 
@@ -135,6 +143,15 @@ func genDrain(c *Config, r *rand.Rand) {
 		for i := range c.Dests {
 			c.Dests[i].NackPct = pick(r, 0, 10, 30)
 		}
+		if c.Engine == "v1" && len(c.Dests) > 1 {
+			// In the default engine a record rejected by one of several destinations makes
+			// the ack of the other branches fail ("message was nacked by another node") and
+			// stops the pipeline with an error: such a pipeline is not "healthy" in the sense
+			// of C06, whatever the DLQ window tolerates.
+			for i := range c.Dests {
+				c.Dests[i].NackPct = 0
+			}
+		}
 	}
 	c.MaxSimTime = 30 * time.Minute
 	total := totalRecords(c)
@@ -148,5 +165,59 @@ func genDrain(c *Config, r *rand.Rand) {
 	if r.IntN(4) == 0 {
 		// a second, concurrent stop request
 		c.Plan = append(c.Plan, Action{Client: "other", Op: "stop", When: pick(r, "acked", "emitted"), N: r.IntN(total + 1)})
+	}
+}
+
+// genHostile: plugins answer with legal-but-hostile shapes (C09). The exact outcome
+// oracles are off; what must hold: no panic, no hang, no ack without confirmation,
+// positions never altered, results attached to the right record.
+func genHostile(c *Config, r *rand.Rand) {
+	addProcs(c, r)
+	c.Hostile = true
+	ps := allProcs(c)
+	if len(ps) == 0 {
+		c.PipeProcs = []ProcCfg{{ID: "pl-p1", Workers: 1, ModifyPct: 50}}
+		ps = allProcs(c)
+	}
+	what := r.IntN(4)
+	if what == 0 || what == 3 {
+		n := 1 + r.IntN(len(ps))
+		for i := 0; i < n; i++ {
+			p := ps[r.IntN(len(ps))]
+			p.Hostile = pick(r, 5, 20, 50, 100)
+		}
+	}
+	if what == 1 || what == 3 {
+		for i := range c.Dests {
+			if r.IntN(2) == 0 {
+				c.Dests[i].HostilePct = pick(r, 5, 20, 50)
+			}
+		}
+		c.Dests[r.IntN(len(c.Dests))].HostilePct = pick(r, 5, 20, 50)
+	}
+	if what == 2 {
+		c.HostileSrc = true
+		c.Sources[r.IntN(len(c.Sources))].HostilePct = pick(r, 5, 20, 50)
+	}
+	if c.Engine == "v2" && r.IntN(2) == 0 {
+		p := ps[r.IntN(len(ps))]
+		p.ShortPct = pick(r, 20, 60)
+		if r.IntN(2) == 0 {
+			p.SplitPct = pick(r, 10, 30)
+		}
+	}
+	for i := range c.Dests {
+		c.Dests[i].NackPct = pick(r, 0, 0, 10)
+	}
+	c.MaxFaults = pick(r, 0, 0, 1, 2)
+	if c.MaxFaults > 0 {
+		c.Faults["plugin.err"] = pick(r, 10, 40)
+		c.Faults["dst.ack.err"] = pick(r, 0, 20)
+	}
+	c.Plan = []Action{
+		{Client: "main", Op: "setup"},
+		{Client: "main", Op: "start"},
+		{Client: "main", Op: "settle", When: "quiet"},
+		{Client: "main", Op: "end"},
 	}
 }
